@@ -256,7 +256,7 @@ func (e *Env) extrasGate(name string) {
 
 func init() {
 	register("C18", Meta{
-		Explanation: "Static analysis of the object/scope converters: all four look their argument up in the memo map first, register a new object/scope in both maps before converting anything it refers to (termination and sharing on the cyclic graphs every file has), carry Kind, Name, Decl, Data resp. Outer, Objects over through type switches with the documented arms and a panicking default; every *Object/*Scope-typed field of every node struct is converted in both directions; node-valued Decl/Data are deferred and drained under Extras with duplicates allowed; without Extras nil is returned. The package builder and scopes (resolve.go, scope.go) equal GOROOT go/ast after erasing positions (frozen, reasoned divergence). Decides the structural conditions of graph isomorphism; does not evaluate concrete graphs.",
+		Explanation: "Static analysis of the object/scope converters: all four look their argument up in the memo map first, register a new object/scope in both maps before converting anything it refers to (termination and sharing on the cyclic graphs every file has), carry Kind, Name, Decl, Data resp. Outer, Objects over through type switches with the documented arms and a panicking default; every *Object/*Scope-typed field of every node struct is converted in both directions; node-valued Decl/Data are deferred and drained under Extras with duplicates allowed; without Extras nil is returned. The package builder and scopes (resolve.go, scope.go: error, errorf, declare, resolve, NewPackage, NewScope, Lookup, Insert, NewObj) equal GOROOT go/ast after erasing positions (frozen, reasoned divergence), compared in the same canonical form as C14's fork. Decides the structural conditions of graph isomorphism; does not evaluate concrete graphs.",
 		NotCovered:  []string{"isomorphism on concrete cyclic graphs"},
 	}, func(e *Env) {
 		e.RDeadAppend()
@@ -280,7 +280,8 @@ func init() {
 		var pairs []forkPair
 		opt := forkOpts{rewrite: upstreamResolveRewrite}
 		for _, f := range [][2]string{{"pkgBuilder", "error"}, {"pkgBuilder", "errorf"}, {"pkgBuilder", "declare"}, {"", "resolve"}, {"", "NewPackage"},
-			{"", "NewScope"}, {"Scope", "Lookup"}, {"Scope", "Insert"}, {"Scope", "String"}, {"", "NewObj"}, {"ObjKind", "String"}} {
+			{"", "NewScope"}, {"Scope", "Lookup"}, {"Scope", "Insert"}, {"", "NewObj"}} {
+			// (Scope.String and ObjKind.String are debugging output: not part of the property)
 			pairs = append(pairs, forkPair{load.PkgDst, "go/ast", f[0], f[1], opt})
 		}
 		e.RFork(pairs)
